@@ -116,6 +116,7 @@ void constructCommon(ModelSignature model,
     std::string filename = checkpoint_filename;
     std::string filename_old = checkpoint_filename + "_old";
 
+    bool main_is_current = false; // indicates whether the main checkpoint file holds the current state
     if (!filename.empty()){ // recover from an existing checkpoint
         auto recover = [&](std::string const &name)->bool{
             std::ifstream infile(name, std::ios::binary);
@@ -132,10 +133,11 @@ void constructCommon(ModelSignature model,
             }
         };
         // try the main file, if missing or corrupt try the older version, if nothing can be recovered start from the current grid
-        if (!recover(filename)) recover(filename_old);
+        main_is_current = recover(filename);
+        if (!main_is_current) recover(filename_old);
     }
 
-    if (!filename.empty()){ // initial checkpoint
+    if (!filename.empty() and !main_is_current){ // initial checkpoint, a main file that was just read is never overwritten without a backup
         std::ofstream ofs(filename, std::ios::binary);
         grid.write(ofs, mode_binary); // write grid to current
         complete.write(ofs);
